@@ -68,6 +68,16 @@ def run_chunks(chunks, ns, between=None):
     return out
 
 
+class _Call:
+    """a lazily evaluated branch that is neither a function nor a lambda: an object with __call__"""
+
+    def __init__(self, v):
+        self.v = v
+
+    def __call__(self):
+        return self.v
+
+
 def api_names():
     import pysnark.runtime as rt
     import pysnark.boolean as bo
@@ -83,7 +93,8 @@ def api_names():
         hashes = {}          # the selected backend has no registered Poseidon parameters (snarkjs, qaptools)
     def set_bitlength(n):
         rt.bitlength = n
-    return dict(snark=rt.snark, set_bitlength=set_bitlength, _aug=model._aug, **hashes, PackBool=pk.PackBool, PackIntMod=pk.PackIntMod, PackList=pk.PackList, PackRepeat=pk.PackRepeat,
+    import functools
+    return dict(snark=rt.snark, set_bitlength=set_bitlength, _aug=model._aug, functools=functools, _Call=_Call, if_guard=rt.if_guard, **hashes, PackBool=pk.PackBool, PackIntMod=pk.PackIntMod, PackList=pk.PackList, PackRepeat=pk.PackRepeat,
                 PrivVal=rt.PrivVal, PubVal=rt.PubVal, ConstVal=rt.ConstVal, LinComb=rt.LinComb,
                 guarded=rt.guarded, PrivValBool=bo.PrivValBool, PubValBool=bo.PubValBool, LinCombBool=bo.LinCombBool,
                 PrivValFxp=fx.PrivValFxp, PubValFxp=fx.PubValFxp, LinCombFxp=fx.LinCombFxp,
@@ -159,6 +170,7 @@ INT_T = [
     ("floordiv_ss", "i", "{i} // {i}"), ("floordiv_sc", "i", "{i} // {k}"), ("floordiv_cs", "i", "{K} // {i}"),
     ("mod_ss", "i", "{i} % {i}"), ("mod_sc", "i", "{i} % {k}"), ("mod_cs", "i", "{K} % {i}"),
     ("divmod_ss", "i", "divmod({i}, {i})[0] + divmod({i}, {k})[1]"),
+    ("rdivmod_q", "i", "divmod({k}, {i})[0]"), ("rdivmod_r", "i", "divmod({k}, {i})[1]"), ("divmod_q", "i", "divmod({i}, {i})[0]"), ("divmod_r", "i", "divmod({i}, {k})[1]"),
     ("pow_sc", "i", "{i} ** {e}"), ("pow_ss", "i", "{i} ** {i}"), ("pow_cs", "i", "{k} ** {i}"),
     ("lshift_sc", "i", "{i} << {s}"), ("lshift_ss", "i", "{i} << {i}"), ("lshift_cs", "i", "{k} << {i}"),
     ("rshift_sc", "i", "{i} >> {s}"), ("rshift_ss", "i", "{i} >> {i}"), ("rshift_cs", "i", "{k} >> {i}"),
@@ -184,6 +196,8 @@ INT_T = [
     ("bits_w", "i", "LinComb.from_bits({i}.to_bits({w}))"),
     ("bit0", "b", "{i}.to_bits()[0]"), ("from_bits_any", "i", "LinComb.from_bits([{i}, {i}, {b}, {i}])"),
     ("from_bits_mixed", "i", "LinComb.from_bits([{b}, {i} * {i}, {K}])"),
+    ("from_bits_iter", "i", "LinComb.from_bits(iter([{i}, {b}, {i}]))"), ("from_bits_gen", "i", "LinComb.from_bits(t for t in ({b}, {i}, {b}, {K}))"),
+    ("from_bits_tuple", "i", "LinComb.from_bits(({i}, {b}))"), ("from_bits_map", "i", "LinComb.from_bits(map(lambda t: t * 1, [{i}, {i}]))"),
     ("tobool", "b", "LinCombBool({b} * {b})"), ("tobool_i", "b", "LinCombBool({i})"),
     ("if_else_conv", "i", "LinCombBool({i}).if_else({i}, {i})"), ("if_else_conv_c", "i", "LinCombBool({i}).if_else({K}, {i})"),
 ]
@@ -191,12 +205,14 @@ BOOL_T = [
     ("band_ss", "b", "{b} & {b}"), ("band_sc", "b", "{b} & {B}"), ("band_cs", "b", "{B} & {b}"),
     ("bor_ss", "b", "{b} | {b}"), ("bor_sc", "b", "{b} | {B}"), ("bor_cs", "b", "{B} | {b}"),
     ("bxor_ss", "b", "{b} ^ {b}"), ("bxor_sc", "b", "{b} ^ {B}"), ("bxor_cs", "b", "{B} ^ {b}"),
-    ("bnot", "b", "~{b}"), ("bpos", "b", "+{b}"), ("balias", "b", "{b}"), ("baug_alias_and", "b", "_aug({b}, {b}, '&')[1]"), ("baug_alias_xor", "b", "_aug({b}, {B}, '^')[1]"), ("babs", "i", "abs({b})"), ("bifelse", "i", "{b}.if_else({i}, {K})"),
+    ("bnot", "b", "~{b}"), ("bpos", "b", "+{b}"), ("balias", "b", "{b}"), ("baug_alias_and", "b", "_aug({b}, {b}, '&')[1]"), ("baug_alias_xor", "b", "_aug({b}, {B}, '^')[1]"), ("babs", "i", "abs({b})"), ("babs_conv", "i", "abs(LinCombBool({i}))"), ("bneg_conv", "i", "-LinCombBool({i}) + 1"), ("bmul_conv", "i", "LinCombBool({i}) * {i}"), ("bifelse", "i", "{b}.if_else({i}, {K})"),
     ("badd", "i", "{b} + {b}"), ("badd_i", "i", "{b} + {i}"), ("bsub", "i", "{b} - {i}"), ("brsub", "i", "{K} - {b}"),
     ("bmul", "i", "{b} * {i}"), ("bmul_b", "i", "{b} * {b}"), ("bneg", "i", "-{b}"),
     ("beq", "b", "{b} == {b}"), ("bne", "b", "{b} != {b}"), ("blt", "b", "{b} < {b}"), ("bge", "b", "{b} >= {B}"),
     ("bpow", "b", "{b} ** {k}"), ("beq_K", "b", "{b} == {K}"), ("blt_K", "b", "{b} < {K}"), ("bne_Kr", "b", "{K} != {b}"),
     ("bge_Kr", "b", "{K} >= {b}"),
+    ("bgt_sB", "b", "{b} > {B}"), ("bge_sB", "b", "{b} >= {B}"), ("blt_sB", "b", "{b} < {B}"), ("ble_sB", "b", "{b} <= {B}"),
+    ("bgt_Bs", "b", "{B} > {b}"), ("bge_Bs", "b", "{B} >= {b}"), ("blt_Bs", "b", "{B} < {b}"), ("ble_Bs", "b", "{B} <= {b}"),
     ("lt_ib", "b", "{i} < {b}"), ("gt_ib", "b", "{i} > {b}"), ("le_ib", "b", "{i} <= {b}"), ("ge_ib", "b", "{i} >= {b}"),
     ("lt_bi", "b", "{b} < {i}"), ("ge_bi", "b", "{b} >= {i}"), ("eq_ib", "b", "{i} == {b}"), ("ne_ib", "b", "{i} != {b}"),
     ("ite_b", "i", "if_then_else({b}, {b}, {b})"), ("ite_bi", "i", "if_then_else({b}, {b}, {i})"), ("ite_ib", "i", "if_then_else({b}, {i}, {b})"),
